@@ -321,7 +321,7 @@ def load_report_from_file(filename):
     try:
         with open(filename, "r") as fh:
             xml = ET.parse(fh)
-    except ET.ParseError as e:
+    except (ET.ParseError, UnicodeDecodeError) as e:
         raise ReportLoadingError(str(e))
     except IOError as e:
         raise e  # re-raise as-is
